@@ -644,4 +644,19 @@ def finfoKindCached (history : List FloatTy) (dt : FloatTy) : Limits :=
   | [] => finfoOf dt
   | first :: _ => finfoOf first
 
+/-! ### dtype special-case guards in funsor/ops/array.py (regenerated into Gen/C15DtypeGuards.lean) -/
+
+/-- numpy dtype kinds -/
+inductive Kind where
+  | b | i | u | f | other (code : String)
+  deriving DecidableEq, Repr, Inhabited
+
+/-- the registered function a guard sits in -/
+inductive GuardFn where
+  | log | safediv | other (name : String)
+  deriving DecidableEq, Repr, Inhabited
+
+/-- `_log`'s special branch `np.where(x, 0.0, -inf)`: the value it returns for a stored integer -/
+def maskLog (n : Nat) : Cls := if n = 0 then Cls.ninf else Cls.pzero
+
 end FV.C15
